@@ -71,6 +71,9 @@ def gen_scenario(seed, idx):
     for name in r.sample(["upem", "width", "ascender", "family", "reuse_tolerance", "keep_glyph_names", "clip_to_viewbox",
                           "clipbox_quantization", "pretty_print", "transform", "version_major"], r.choice([0, 1, 2, 3])):
         opts[name] = r.choice(gen.OPTION_VALUES[name])
+    if fmt in gen.BITMAP and r.random() < 0.5:
+        name = r.choice(["use_zopflipng", "use_pngquant", "pngquant_flags"])
+        opts[name] = r.choice(gen.OPTION_VALUES[name])
     sc.update(fmt=fmt, srcs=srcs, opts=opts, fonts=[opts["output_file"]])
     if kind == "two-configs":
         o2 = dict(opts)
@@ -171,15 +174,22 @@ def build_job(seed, idx, sc, vi, var):
         names = [p for p, _ in sorted(sc["srcs"].items())]
         contents = [c for _, c in sorted(sc["srcs"].items())]
         pre = []
-        if len(names) > 1 and len({json.dumps(c, sort_keys=True) for c in contents}) > 1:
-            for p, c in zip(names, contents[1:] + contents[:1]):
-                pre.append({"op": "write", "path": proj + "/" + p, "content": c})
-            argv0 = list(argv)
-            if sc.get("delivery") == "flags" and "--upem" not in argv0:
-                argv0 = ["--upem", "2000"] + argv0
-            pre.append({"op": "invoke", "cwd": cwd, "argv": argv0, "build_dir": build_dir, "label": "earlier", "sched": var["sched"]})
-            for p, c in sorted(sc["srcs"].items()):
-                pre.append({"op": "write", "path": proj + "/" + p, "content": c})
+        rotate = len(names) > 1 and len({json.dumps(c, sort_keys=True) for c in contents}) > 1 and r.random() < 0.6
+        # the earlier build used other option values, given as flags (flags beat the file, whatever the delivery)
+        other = []
+        if sc["fmt"] in gen.BITMAP:
+            other = r.choice([["--nouse_zopflipng"], ["--use_zopflipng"], ["--nouse_pngquant"], ["--use_pngquant"], ["--pngquant_flags", "--speed 10 --quality 40-60"],
+                              ["--pngquant_flags", "--speed 3 --quality 100-100"], ["--bitmap_resolution", "48"]])
+        elif "--upem" not in argv:
+            other = r.choice([["--upem", "2000"], ["--noclip_to_viewbox"], ["--reuse_tolerance", "-1"], ["--keep_glyph_names"], []])
+        if rotate or other:
+            if rotate:
+                for p, c in zip(names, contents[1:] + contents[:1]):
+                    pre.append({"op": "write", "path": proj + "/" + p, "content": c})
+            pre.append({"op": "invoke", "cwd": cwd, "argv": list(argv) + other, "build_dir": build_dir, "label": "earlier", "sched": var["sched"]})  # the last flag wins
+            if rotate:
+                for p, c in sorted(sc["srcs"].items()):
+                    pre.append({"op": "write", "path": proj + "/" + p, "content": c})
             ops.extend(pre)
     ops.append({"op": "invoke", "cwd": cwd, "argv": argv, "build_dir": build_dir, "label": "build", "sched": sched, "final": True})
     if var.get("tz"):
